@@ -343,6 +343,14 @@ def val_eq(it, fr, l, r):
     """z3 Bool for python `l == r` (operands may be unsplit SAny)"""
     if isinstance(l, SAny) or isinstance(r, SAny):
         return zor([z3.And(ga, gb, val_eq(it, fr, x, y)) for ga, x in alt_cases(l) for gb, y in alt_cases(r)])
+    if _keys_view(l) or _keys_view(r):
+        # dict key views compare like sets (with sets, frozensets and other key views); with anything else they are unequal
+        other = r if _keys_view(l) else l
+        if not (_keys_view(other) or issubclass(pytype_of(other), (set, frozenset))):
+            return z3.BoolVal(False)
+        ia, ib = set_items(l), set_items(r)
+        sub = lambda a, b: zand([z3.Implies(g, zor([z3.And(h, val_eq(it, fr, x, y)) for h, y in b])) for g, x in a])
+        return z3.And(sub(ia, ib), sub(ib, ia))
     if not has_sym(l) and not has_sym(r):
         try:
             return z3.BoolVal(bool(l == r))
